@@ -27,7 +27,7 @@ class OpResult {
   OpResult(const OpResult<T>& oth) : ptr_(oth ? new (buf_) T(*oth.ptr_) : nullptr) {}
 
   OpResult(OpResult<T>&& oth) : ptr_(oth ? new (buf_) T(std::move(*oth.ptr_)) : nullptr) {
-    oth.ptr_ = nullptr;
+    oth.reset();
   }
 
   OpResult& operator=(const OpResult& oth) {
@@ -56,7 +56,7 @@ class OpResult {
 
     if (oth) {
       ptr_ = new (buf_) T(std::move(*oth.ptr_));
-      oth.ptr_ = nullptr;
+      oth.reset();
     } else {
       ptr_ = nullptr;
     }
@@ -77,6 +77,14 @@ class OpResult {
     }
     ptr_ = new (buf_) T(std::forward<Args>(args)...);
     return *ptr_;
+  }
+
+  // Destroy the contained object (if any) and become empty.
+  void reset() {
+    if (ptr_) {
+      ptr_->~T();
+      ptr_ = nullptr;
+    }
   }
 
   operator bool() const {
